@@ -104,4 +104,22 @@ Laws == Ready =>
   /\ (StripPtr(Types[ti]).k = "struct" /\ (Res.t # "ns" \/ Cardinality(Res.v) # 1) => IsUErr(Out))
   /\ (~IsUErr(Out) /\ StripPtr(Types[ti]).k = "slice" => Len(Out.v) = Cardinality(Res.v))
 Emit == (EmitOn /\ Ready) => PrintT(ToJson([fam |-> "C19.unmarshal", doc |-> UDoc, env |-> UEnv, type |-> Types[ti], form |-> Forms[fi], result |-> Results[ri], out |-> Out]))
+
+\* One call over nodes of TWO documents: the node-set handed to Unmarshal holds the nodes the query selects in UDoc followed by
+\* the nodes it selects in a twin document (same shape, every text and attribute value followed by "7").  Every element of the
+\* slice is filled from its own node, and a tag is evaluated in the document of that node - absolute paths included.
+UTwin == [n \in 1..Len(UDoc) |-> IF UDoc[n].k \in {"text", "attr"} THEN [UDoc[n] EXCEPT !.v = @ \o <<"7">>] ELSE UDoc[n]]
+ASSUME WellFormed(UTwin)
+AbsId == Abs(<<Step("child", T_name("", <<"r">>)), Step("attribute", T_name("", <<"i","d">>))>>)            \* /r/@id
+TwoDocTypes == << Slice(Struct(<<Field(Rel(<<Self>>), Prim("string")), Field(AbsId, Prim("string")), Field(Abs(<<DoS, Step("child", T_name("", <<"d">>))>>), Slice(Prim("string")))>>)),
+                  Slice(Ptr(Struct(<<Field(Call(<<"c","o","n","c","a","t">>, <<AbsId, Lit(<<"|">>), Rel(<<Self>>)>>), Prim("string"))>>))),
+                  Slice(Prim("string")) >>
+TwoDocResults == << Results[2], Results[4], Abs(<<DoS, Step("child", T_name("", <<"d">>))>>) >>
+TwoDocOut(T, e) ==
+  LET a == UnmarshalCall(UDoc, UEnv, "ptr", T, Eval(UDoc, UEnv, e, Ctx(1)), FALSE)
+      b == UnmarshalCall(UTwin, UEnv, "ptr", T, Eval(UTwin, UEnv, e, Ctx(1)), FALSE)
+  IN IF IsUErr(a) THEN a ELSE IF IsUErr(b) THEN b ELSE [k |-> "list", v |-> a.v \o b.v, rev |-> FALSE]
+ASSUME \A i \in 1..Len(TwoDocTypes), j \in 1..Len(TwoDocResults) : ~IsUErr(TwoDocOut(TwoDocTypes[i], TwoDocResults[j]))
+ASSUME EmitOn => \A i \in 1..Len(TwoDocTypes), j \in 1..Len(TwoDocResults) :
+   PrintT(ToJson([fam |-> "C19.unmarshal", doc |-> UDoc, twin |-> UTwin, env |-> UEnv, type |-> TwoDocTypes[i], form |-> "ptr", result |-> TwoDocResults[j], out |-> TwoDocOut(TwoDocTypes[i], TwoDocResults[j])]))
 =============================================================================
